@@ -118,7 +118,14 @@ fn full_digest(s: &Snapshot) -> u64 {
 }
 
 pub async fn take_snapshot(ds: &Dataset, raw: &RawStore) -> Result<Snapshot, String> {
+    let trace = std::env::var("E_HIST_TRACE").is_ok();
+    if trace {
+        eprintln!("TRACE     snapshot v{} of {}: walk", ds.manifest().version, ds.uri());
+    }
     let w = walk(ds, raw, false).await;
+    if trace {
+        eprintln!("TRACE     snapshot: scan");
+    }
     let (names, rows) = scan_rows(
         ds,
         &ScanOpts {
@@ -136,8 +143,17 @@ pub async fn take_snapshot(ds: &Dataset, raw: &RawStore) -> Result<Snapshot, Str
     } else {
         names
     };
+    if trace {
+        eprintln!("TRACE     snapshot: count_deleted_rows");
+    }
     let n_deleted = ds.count_deleted_rows().await.map_err(|e| format!("count_deleted_rows: {e}"))?;
+    if trace {
+        eprintln!("TRACE     snapshot: index_list");
+    }
     let (indices, index_names) = index_list(ds).await?;
+    if trace {
+        eprintln!("TRACE     snapshot: done");
+    }
     let m = ds.manifest();
     let mut s = Snapshot {
         version: m.version,
